@@ -7,7 +7,7 @@ import random
 
 import gevent
 
-from sim.world import World
+from sim.world import World, H
 from harness import relay as hr
 
 ID = 'C19'
@@ -79,6 +79,10 @@ def execute(scn, debug=False):
             conn['idle_421'] = scn['idle_421']
         tx = {}
         http = {}
+
+        def rng_of(c):
+            # (keyed, so that the scenario document stays as it is)
+            return random.Random(H(scn['sched_seed'], 'fate', c['tag']))
         for c in scn['callers']:
             f = c['fate']
             if kind == 'http':
@@ -86,8 +90,11 @@ def execute(scn, debug=False):
                     'ok': {}, 'slow': {'delay': 1.5},
                     'reject': {'status': 500, 'reply_header':
                                '550; message="5.1.1 rejected"'},
-                    'rcpt-reject': {'status': 503, 'reply_header':
-                                    '450; message="4.1.1 deferred"'},
+                    'rcpt-reject': {'status': rng_of(c).choice([503, 503, 302]),
+                                    'reply_header': rng_of(c).choice([
+                                        '450; message="4.1.1 deferred"',
+                                        '450; message="4.1.1 deferred"',
+                                        None])},
                     'drop': {'act': 'disconnect'},
                     'garbage': {'act': 'garbage'}}[f]
             else:
